@@ -134,6 +134,11 @@ func (p *PaymentService) Withdraw(ctx context.Context, sig string, wallet string
 	if err != nil {
 		return err
 	}
+	// The credit earned so far has been paid out together with the deposit
+	// (the contract balance is now newBalance), so it leaves the pool's ledger.
+	if err := p.BalanceStore.AddAccountBalance(account, new(big.Int).Neg(&balance.Credit)); err != nil {
+		return err
+	}
 	logger.Printf("Withdraw from account %q for %d: %s", account, total, txID)
 	return nil
 }
